@@ -4,7 +4,7 @@ cd "$(dirname "$0")/.."
 ROOT=$(pwd)
 export GOFLAGS=-mod=mod GOPROXY=off VERIF_ROOT=$ROOT
 (cd lean && lake build >/dev/null 2>&1)
-(cd harness && cp /repo/go.sum . && go build -tags verif -o bin/ ./cmd/...) || exit 2
+(cd harness && sort -u go.sum.own /repo/go.sum > go.sum && go build -tags verif -o bin/ ./cmd/...) || exit 2
 for seed in ${SEEDS:-101 102 103 104 105 106}; do
   for mode in mixed snap figure8 asynccrash single zero converge; do
     ./harness/bin/sim -tier ${TIER:-quick} -runs ${RUNS:-480} -mode $mode -seed $seed -workers ${WORKERS:-8} | python3 -c "
